@@ -55,6 +55,7 @@ pub fn lookup(scen: &str) -> Option<Scenario> {
         "rtsweep" => scen_rt::run_short_sweep,
         "synth" => scen_synth::run,
         "bent" => scen_bent::run,
+        "dmggen" => scen_dmg::run_gen,
         "c06gen" => scen_rd::run_c06_gen,
         "c07gen" => scen_rd::run_c07_gen,
         "c16sweep" => scen_c16::run_sweeps,
